@@ -267,4 +267,55 @@ theorem snapToAnother_changed (t : Rat) (eps : List Pt) (another : Polyline) (h 
     refine ⟨ep, this.1, ?_⟩
     simpa using this.2
 
+/-- vertex insertion adds the point and nothing else: every vertex of the result is an old vertex or the point -/
+theorem insertGeo_vertices (l : Polyline) (p : Pt) (t : Rat) : ∀ v ∈ Snap.insertGeo l p t, v ∈ l ∨ v = p := by
+  intro v hv
+  unfold Snap.insertGeo at hv
+  split at hv
+  · exact Or.inl hv
+  · simp only [] at hv
+    generalize Snap.choose _ _ _ _ = act at hv
+    cases act with
+    | insertAfter j =>
+      simp only [Snap.apply, List.mem_append, List.mem_cons, List.not_mem_nil, or_false] at hv
+      rcases hv with (h | h) | h
+      · exact Or.inl (List.mem_of_mem_take h)
+      · exact Or.inr h
+      · exact Or.inl (List.mem_of_mem_drop h)
+    | replace k =>
+      simp only [Snap.apply] at hv
+      rcases List.mem_or_eq_of_mem_set hv with h | h
+      · exact Or.inl h
+      · exact Or.inr h
+
+theorem foldl_insert_vertices (t : Rat) (sel : List Pt) (l : Polyline) :
+    ∀ v ∈ sel.foldl (fun l ep => Snap.insertGeo l ep t) l, v ∈ l ∨ v ∈ sel := by
+  induction sel generalizing l with
+  | nil => intro v hv; exact Or.inl hv
+  | cons e rest ih =>
+    intro v hv
+    simp only [List.foldl_cons] at hv
+    rcases ih _ v hv with h | h
+    · rcases insertGeo_vertices l e t v h with h' | h'
+      · exact Or.inl h'
+      · exact Or.inr (by simp [h'])
+    · exact Or.inr (by simp [h])
+
+/-- **one second-stage pass stays within the threshold of the trace as it was**: every vertex of the result is an old vertex
+of the trace or an end that was strictly within the threshold of the trace before the pass -/
+theorem snapToAnother_vertices (t : Rat) (eps : List Pt) (another : Polyline) :
+    ∀ v ∈ (snapToAnother t eps another).1, v ∈ another ∨ (v ∈ eps ∧ near t v another = true) := by
+  intro v hv
+  unfold snapToAnother at hv
+  simp only [] at hv
+  split at hv
+  · exact Or.inl hv
+  · rcases foldl_insert_vertices t _ another v hv with h | h
+    · exact Or.inl h
+    · have := List.mem_filter.mp h
+      refine Or.inr ⟨this.1, ?_⟩
+      have h2 := this.2
+      simp only [Bool.and_eq_true] at h2
+      exact h2.1
+
 end SnapL
